@@ -630,7 +630,7 @@ pub fn run(r: &Run) {
     r.prop("big-open", r.tier.pick(4_000, 100_000), arb_big_open, check);
     r.prop("sessions", r.tier.pick(20_000, 500_000), || arb_seq(40), check_seq);
     r.assume(DUMP_RULE);
-    r.prop("session-dump", r.tier.pick(96, 3_000), arb_dump, check_dump);
+    r.slow(|| r.prop("session-dump", r.tier.pick(96, 3_000), arb_dump, check_dump));
 }
 
 pub fn replay(sub: &str, case: &Value) -> Result<CheckResult, String> {
